@@ -21,6 +21,7 @@ pub(super) fn finalize_lambda(
     };
     lambda_compiler.current.global_layout = global_layout;
     lambda_compiler.current.compute_global_layout_hash();
+    lambda_compiler.ensure_jumps_in_range(span)?;
     lambda_compiler.current.finalize_bytecode();
 
     parent.mark_captures_from_nested(&lambda_compiler);
